@@ -2,7 +2,7 @@
 SPECIFICATION Spec
 CONSTANTS
   Clients = {"c1", "c2", "c3"}
-  Conns = {"k1", "k2", "k3"}
+  ConnOrder <- K3
   Topics <- T2
   Filters <- F_Route
   QosSet = {0, 1}
